@@ -30,6 +30,83 @@ def E():
     return core.cur
 
 
+_INV_LOWER = None
+
+
+def _preimage(members):
+    """all code points whose sre-lowercase is in `members` (plus sre's equivalence fixes): the set
+    of subject characters that match a class with these (lower-cased) members under IGNORECASE"""
+    global _INV_LOWER
+    import _sre
+
+    if _INV_LOWER is None:
+        inv = {}
+        for cp in range(0x110000):
+            inv.setdefault(_sre.unicode_tolower(cp), []).append(cp)
+        _INV_LOWER = inv
+    try:
+        from re import _casefix
+
+        fixes = _casefix._EXTRA_CASES
+    except ImportError:  # pragma: no cover
+        import sre_compile as _cmp
+
+        fixes = getattr(_cmp, "_ignorecase_fixes", {})
+    low = set()
+    for m in members:
+        lo = _sre.unicode_tolower(m)
+        low.add(lo)
+        for k in fixes.get(lo, ()):
+            low.add(k)
+    out = set()
+    for lo in low:
+        out.update(_INV_LOWER.get(lo, [lo]))
+    return sorted(out)
+
+
+_ICASE_CACHE = {}
+
+
+def _icase_ranges(av):
+    """(negated, list of (lo, hi)) of subject characters matching class items `av` under IGNORECASE"""
+    key = repr(av)
+    hit = _ICASE_CACHE.get(key)
+    if hit is not None:
+        return hit
+    neg = False
+    members = set()
+    for op, a in av:
+        if op is _sc.NEGATE:
+            neg = True
+        elif op is _sc.LITERAL:
+            members.add(a)
+        elif op is _sc.RANGE:
+            if a[1] - a[0] > 5000:
+                raise Unsupported("very wide character range under IGNORECASE")
+            members.update(range(a[0], a[1] + 1))
+        else:
+            raise Unsupported(f"regex class item {op} under IGNORECASE")
+    pts = _preimage(members)
+    ranges = []
+    for p in pts:
+        if ranges and ranges[-1][1] == p - 1:
+            ranges[-1][1] = p
+        else:
+            ranges.append([p, p])
+    hit = _ICASE_CACHE[key] = (neg, [(a, b) for a, b in ranges])
+    return hit
+
+
+def _cond_icase(c, av):
+    neg, ranges = _icase_ranges(av)
+    if _real_isinstance(c, _real_int):
+        r = any(a <= c <= b for a, b in ranges)
+        return (not r) if neg else r
+    ts = [(c == a) if a == b else z3.And(c >= a, c <= b) for a, b in ranges]
+    t = z3.Or(*ts) if ts else z3.BoolVal(False)
+    return z3.Not(t) if neg else t
+
+
 def _cond_in(c, av, is_bytes):
     """z3 Bool (or python bool when decidable) for: element c is in class item list av"""
     neg = False
@@ -107,14 +184,15 @@ def _test(cond):
 
 
 class _State:
-    __slots__ = ("items", "n", "groups", "is_bytes", "steps")
+    __slots__ = ("items", "n", "groups", "is_bytes", "steps", "icase")
 
-    def __init__(self, items, ngroups, is_bytes):
+    def __init__(self, items, ngroups, is_bytes, icase=False):
         self.items = items
         self.n = _real_len(items)
         self.groups = [None] * (ngroups + 1)
         self.is_bytes = is_bytes
         self.steps = 0
+        self.icase = icase
 
 
 def _match_seq(nodes, i, pos, st, cont):
@@ -126,6 +204,13 @@ def _match_seq(nodes, i, pos, st, cont):
     nxt = lambda p: _match_seq(nodes, i + 1, p, st, cont)  # noqa: E731
     items, n = st.items, st.n
 
+    if st.icase and op in (_sc.LITERAL, _sc.NOT_LITERAL, _sc.IN):
+        cls = [(_sc.LITERAL, av)] if op is not _sc.IN else av
+        if pos < n:
+            r = _test(_cond_icase(items[pos], cls))
+            if r != (op is _sc.NOT_LITERAL):
+                return nxt(pos + 1)
+        return None
     if op is _sc.LITERAL:
         if pos < n and _lit_test(items[pos], av):
             return nxt(pos + 1)
@@ -372,7 +457,8 @@ class SPattern:
         self.groups = self._real.groups
         self._is_bytes = _real_isinstance(pattern, bytes)
         self._tree = None
-        if self.flags & (_re.IGNORECASE | _re.MULTILINE | _re.DOTALL | _re.LOCALE):
+        self._icase = bool(self.flags & _re.IGNORECASE)
+        if self.flags & (_re.MULTILINE | _re.DOTALL | _re.LOCALE) or (self._icase and (self._is_bytes or self.flags & _re.ASCII)):
             self._unsupported = True
         else:
             self._unsupported = False
@@ -395,7 +481,7 @@ class SPattern:
     def _match_at(self, items, pos, full=False):
         if self._unsupported:
             raise Unsupported(f"regex flags {self.flags} on symbolic input")
-        st = _State(items, self.groups, self._is_bytes)
+        st = _State(items, self.groups, self._is_bytes, self._icase)
         n = st.n
         end = _match_seq(self._nodes(), 0, pos, st, (lambda p: p if p == n else None) if full else (lambda p: p))
         if end is None:
